@@ -1,3 +1,349 @@
 import Cppcms.Common
-/-! Line-protocol driver for C20 (stub: model not written yet). -/
-def main : IO Unit := Cppcms.lineLoop () (fun s _ => (s, "unimplemented"))
+import Cppcms.C20.Model
+import Cppcms.C20.Spec
+/-! Line-protocol driver for C20 (see `harness/c20.cpp` for the case grammar).
+Ordinary lines evaluate the model (with the quirks of the current source, `Gen.quirks`) on the raw
+engine answers shipped on the case line; `J <case> # <impl output>` lines evaluate the specification
+(`Spec.lean`) on the same answers and compare with what the implementation printed. -/
+open Cppcms Cppcms.C20
+
+/-- the application tree as written on the case line -/
+inductive Items where
+  | nil
+  | L (l : Leaf) (rest : Items)
+  | U (key tpl : Bytes) (rest : Items)
+  | C (re : Option Regex) (sel : Int) (name : Option Bytes) (tpl : Bytes) (child : Items) (rest : Items)
+
+def parseRe (w : String) : Option (Option Regex) :=
+  if w == "_" then some none
+  else match w.toList with
+    | 'r' :: h => (parseHex (String.ofList h)).map fun p => some ⟨p, false⟩
+    | 'i' :: h => (parseHex (String.ofList h)).map fun p => some ⟨p, true⟩
+    | _ => none
+
+def parseInt (w : String) : Option Int := w.toInt?
+
+def parseSel (w : String) : Option (List Int) := (w.splitOn ",").mapM parseInt
+
+def parseKind (w : String) : Option Kind :=
+  if w == "h0" then some .h0
+  else if w == "rh" then some .rh
+  else if w == "g" then some (.gen none)
+  else match w.splitOn ":" with
+    | ["hN", s] => (parseSel s).map .hN
+    | ["g", g, v] => match parseInt g, parseHex v with
+      | some g, some v => some (.gen (some (g, v)))
+      | _, _ => none
+    | _ => none
+
+def parseOptHex (w : String) : Option (Option Bytes) :=
+  if w == "_" then some none else (parseHex w).map some
+
+/-- items up to the closing brace; `fuel` ≥ number of words -/
+def parseItems : Nat → List String → Option (Items × List String)
+  | 0, _ => none
+  | _ + 1, "}" :: ws => some (.nil, ws)
+  | fuel + 1, "L" :: id :: re :: meth :: kind :: ws =>
+    match id.toNat?, parseRe re, parseOptHex meth, parseKind kind with
+    | some id, some (some re), some meth, some kind =>
+      (parseItems fuel ws).map fun (rest, ws') => (.L ⟨id, re, meth, kind⟩ rest, ws')
+    | _, _, _, _ => none
+  | fuel + 1, "U" :: key :: tpl :: ws =>
+    match parseHex key, parseHex tpl with
+    | some key, some tpl => (parseItems fuel ws).map fun (rest, ws') => (.U key tpl rest, ws')
+    | _, _ => none
+  | fuel + 1, "C" :: re :: sel :: name :: tpl :: "{" :: ws =>
+    match parseRe re, parseInt sel, parseOptHex name, parseHex tpl with
+    | some re, some sel, some name, some tpl =>
+      match parseItems fuel ws with
+      | some (child, ws') => (parseItems fuel ws').map fun (rest, ws'') => (.C re sel name tpl child rest, ws'')
+      | none => none
+    | _, _, _, _ => none
+  | _, _ => none
+
+def parseTree (ws : List String) : Option Items :=
+  match ws with
+  | "{" :: ws => match parseItems (ws.length + 1) ws with
+    | some (t, []) => some t
+    | _ => none
+  | _ => none
+
+def Items.opts : Items → Opts
+  | .nil => .nil
+  | .L l rest => .leaf l rest.opts
+  | .U _ _ rest => rest.opts
+  | .C (some re) sel _ _ child rest => .mount re sel child.opts rest.opts
+  | .C none _ _ _ _ rest => rest.opts
+
+/-- the mapper registrations in construction order (`acc` = `by_key` so far); `none`: some call threw -/
+def Items.mnode (acc : MNode) : Items → Option MNode
+  | .nil => some acc
+  | .L _ rest => rest.mnode acc
+  | .U key tpl rest =>
+    let r := if key.isEmpty then parseTpl tpl false else assignChecked key tpl
+    match r with
+    | .error _ => none
+    | .ok (t, ar) => match acc.assignUrl key ar t with
+      | .error _ => none
+      | .ok acc' => rest.mnode acc'
+  | .C _ _ none _ child rest =>
+    match child.mnode .nil with
+    | none => none
+    | some _ => rest.mnode acc
+  | .C _ _ (some name) tpl child rest =>
+    match child.mnode .nil with
+    | none => none
+    | some c => match parseTpl tpl true with
+      | .error _ => none
+      | .ok (t, _) => match acc.mountApp name t c with
+        | .error _ => none
+        | .ok acc' => rest.mnode acc'
+
+/-- every `booster::regex` the constructors build (handlers, method filters, mounts) -/
+def Items.regexes : Items → List Regex
+  | .nil => []
+  | .L l rest => l.re :: (match l.meth with | some m => [⟨m, false⟩] | none => []) ++ rest.regexes
+  | .U _ _ rest => rest.regexes
+  | .C re _ _ _ child rest => (match re with | some r => [r] | none => []) ++ child.regexes ++ rest.regexes
+
+/-- name of the `i`-th child application and its items -/
+def Items.kid : Items → Nat → Option (Option Bytes × Items)
+  | .nil, _ => none
+  | .L _ rest, i => rest.kid i
+  | .U _ _ rest, i => rest.kid i
+  | .C _ _ name _ child rest, i => if i = 0 then some (name, child) else rest.kid (i - 1)
+
+/-- descend from the root mapper along child indexes -/
+def descend (items : Items) (p : MPos) : List Nat → Option MPos
+  | [] => some p
+  | i :: is =>
+    match items.kid i with
+    | some (some name, child) =>
+      match p.child name with
+      | .ok p' => descend child p' is
+      | .error _ => none
+    | _ => none
+
+/-! ### the oracle table -/
+
+structure Oracle where
+  infos : List (String × Option Nat) := []
+  execs : List (String × String × Option Raw) := []
+
+def parseSpan (w : String) : Option Span :=
+  match w.splitOn "." with
+  | [a, b] => match a.toInt?, b.toInt? with
+    | some a, some b => some (a, b)
+    | _, _ => none
+  | _ => none
+
+def parseRaw (w : String) : Option (Option Raw) :=
+  if w == "n" then some none
+  else match (w.splitOn ",").mapM parseSpan with
+    | some (sp :: gs) => some (some (sp, gs))
+    | _ => none
+
+def parseOracle : List String → Oracle → Option Oracle
+  | [], o => some o
+  | "I" :: t :: c :: ws, o =>
+    if c == "x" then parseOracle ws { o with infos := (t, none) :: o.infos }
+    else match c.toNat? with
+      | some n => parseOracle ws { o with infos := (t, some n) :: o.infos }
+      | none => none
+  | "O" :: t :: s :: r :: ws, o =>
+    match parseRaw r with
+    | some r => parseOracle ws { o with execs := (t, s, r) :: o.execs }
+    | none => none
+  | _, _ => none
+
+def reTok (pat : Bytes) (ic : Bool) : String := (if ic then "i" else "r") ++ toHex pat
+
+/-- the engine, as recorded from libpcre by the harness for this case (unknown question = no match) -/
+def Oracle.rx (o : Oracle) : Rx where
+  info pat ic := match o.infos.find? (·.1 == reTok pat ic) with
+    | some (_, r) => r
+    | none => none
+  exec pat ic s :=
+    let t := reTok pat ic
+    let h := toHex s
+    match o.execs.find? (fun e => e.1 == t && e.2.1 == h) with
+    | some (_, _, r) => r
+    | none => none
+
+/-! ### printing -/
+
+def optHex : Option Bytes → String
+  | none => "~"
+  | some b => toHex b
+
+def argsStr (a : List (Option Bytes)) : String := ",".intercalate (a.map optHex)
+
+def evStr : Event → String
+  | .ran id a => s!"R{id}:{argsStr a}"
+  | .rejected id a => s!"X{id}:{argsStr a}"
+  | .notFound => "NF"
+
+def evsStr (e : List Event) : String := if e.isEmpty then "-" else ";".intercalate (e.map evStr)
+
+def sections (ws : List String) : List (List String) :=
+  ws.foldr (fun w acc => if w == "|" then [] :: acc else match acc with
+    | [] => [[w]]
+    | h :: t => (w :: h) :: t) [[]]
+
+def mapErrStr : MapErr → String
+  | .keyNotFound => "keyNotFound" | .badArity => "badArity" | .notChild => "notChild"
+  | .indexRange => "indexRange" | .noParent => "noParent" | .tooManyKeywords => "tooManyKeywords"
+
+def tplErrStr : TplErr → String
+  | .emptyIndex => "emptyIndex" | .zeroIndex => "zeroIndex" | .unclosed => "unclosed" | .strayClose => "strayClose"
+  | .appArity => "appArity" | .badKey => "badKey" | .sharedKey => "sharedKey"
+
+def mapStr : Except MapErr Bytes → String
+  | .ok u => "ok:" ++ toHex u
+  | .error e => "err:" ++ mapErrStr e
+
+def regexesOk (rx : Rx) (rs : List Regex) : Bool := rs.all fun r => (rx.info r.pat r.icase).isSome
+
+def parseMp (ws : List String) : Option (MountPoint × List String) :=
+  match ws with
+  | h :: s :: p :: g :: sel :: rest =>
+    match parseRe h, parseRe s, parseRe p, parseInt g with
+    | some h, some s, some p, some g => some (⟨h, s, p, g, sel == "1"⟩, rest)
+    | _, _, _, _ => none
+  | _ => none
+
+def mpRegexes (mp : MountPoint) : List Regex := mp.host.toList ++ mp.script.toList ++ mp.path.toList
+
+def parseKV : Nat → List String → Option (List (Bytes × Bytes) × List String)
+  | 0, ws => some ([], ws)
+  | n + 1, k :: v :: ws => match parseHex k, parseHex v, parseKV n ws with
+    | some k, some v, some (kv, ws') => some ((k, v) :: kv, ws')
+    | _, _, _ => none
+  | _, _ => none
+
+def parsePos (w : String) : Option (List Nat) :=
+  if w == "-" then some [] else (w.splitOn ".").mapM String.toNat?
+
+def mpOut (r : Option Bytes) : String :=
+  match r with
+  | some m => "1:" ++ toHex m
+  | none => "0:-"
+
+def markers : List Bytes := [[60, 49, 62], [60, 50, 62], [60, 51, 62], [60, 52, 62], [60, 53, 62], [60, 54, 62]]
+
+/-- `spec = true`: answer from `Spec.lean`; otherwise from the model with the current source's quirks -/
+def evalCase (spec : Bool) (ws : List String) : String :=
+  let q := Gen.quirks
+  match sections ws with
+  | ["D", meth, url] :: tree :: rest =>
+    match parseOptHex meth, parseHex url, parseTree tree, parseOracle (rest.headD []) {} with
+    | some req, some url, some items, some o =>
+      let rx := o.rx
+      if !regexesOk rx items.regexes then "cfg-error"
+      else
+        let r := if spec then Spec.route rx req (items.opts.depth + 1) items.opts url else dispatch rx q req items.opts url
+        if req.isNone && r.2.contains .notFound then "exc " ++ evsStr (r.2.filter (· != .notFound))
+        else boolStr r.1 ++ " " ++ evsStr r.2
+    | _, _, _, _ => "bad-op"
+  | ("MP" :: ws) :: _ :: rest =>
+    match parseMp ws, parseOracle (rest.headD []) {} with
+    | some (mp, [h, s, p]), some o =>
+      match parseHex h, parseHex s, parseHex p with
+      | some h, some s, some p =>
+        let rx := o.rx
+        if !regexesOk rx (mpRegexes mp) then "cfg-error"
+        else if spec then
+          -- the `char const *` overload is by type a statement about the C strings
+          "S:" ++ mpOut (Spec.mpMatch rx mp h s p) ++ " C:" ++ mpOut (Spec.mpMatch rx mp (cstr h) (cstr s) (cstr p))
+        else "S:" ++ mpOut (mpMatchStr rx q mp h s p) ++ " C:" ++ mpOut (mpMatchPtr rx q mp h s p)
+      | _, _, _ => "bad-op"
+    | _, _ => "bad-op"
+  | ["P", meth, h, s, p, k] :: rest =>
+    match parseHex meth, parseHex h, parseHex s, parseHex p, k.toNat? with
+    | some meth, some h, some s, some p, some k =>
+      let apps := (rest.take k).mapM fun sec => match parseMp sec with
+        | some (mp, tree) => (parseTree tree).map fun t => (mp, t)
+        | none => none
+      match apps, parseOracle ((rest.drop k).headD []) {} with
+      | some apps, some o =>
+        let rx := o.rx
+        if !regexesOk rx (apps.flatMap fun a => mpRegexes a.1 ++ a.2.regexes) then "cfg-error"
+        else
+          let cfg := apps.map fun a => (a.1, a.2.opts)
+          let r := if spec then Spec.poolRoute rx cfg meth (cstr h) (cstr s) (cstr p) else poolRoute rx q cfg meth h s p
+          let m := if spec then (Spec.poolFind rx (cfg.map (·.1)) (cstr h) (cstr s) (cstr p)).map (·.2)
+                   else (poolFind rx q h s p (cfg.map (·.1)) 0).map (·.2)
+          match r with
+          | none => "none"
+          | some (i, evs) => s!"{i} {toHex (m.getD [])} {evsStr evs}"
+      | _, _ => "bad-op"
+    | _, _, _, _, _ => "bad-op"
+  | ("T" :: isapp :: key :: tpl :: nh :: kvs) :: _ =>
+    match parseHex key, parseHex tpl, nh.toNat? with
+    | some key, some tpl, some nh =>
+      match parseKV nh kvs with
+      | some (helpers, []) =>
+        let ctx : MCtx := { root := [], helpers := helpers.reverse }
+        let node : Except TplErr MNode :=
+          if isapp == "1" then
+            match parseTpl tpl true with
+            | .error e => .error e
+            | .ok (t, _) => MNode.nil.mountApp key t (.url [] 0 ⟨[[67, 72]], [], []⟩ .nil)
+          else match assignChecked key tpl with
+            | .error e => .error e
+            | .ok (t, ar) => MNode.nil.assignUrl key ar t
+        match node with
+        | .error e => "err:" ++ tplErrStr e
+        | .ok n => "ok " ++ " ".intercalate ((List.range 7).map fun k => mapStr (mapUrl ctx ⟨n, []⟩ key (markers.take k)))
+      | _ => "bad-op"
+    | _, _, _ => "bad-op"
+  | (kind :: ws) :: tree :: rest =>
+    if kind != "U" && kind != "R" then "bad-op"
+    else
+      let (meth, ws) := if kind == "R" then (ws.head?.bind parseHex, ws.drop 1) else (some [], ws)
+      match meth, ws with
+      | some meth, root :: nh :: ws =>
+        match parseHex root, nh.toNat? with
+        | some root, some nh =>
+          match parseKV nh ws with
+          | some (helpers, pos :: key :: np :: params) =>
+            match parsePos pos, parseHex key, np.toNat?, params.mapM parseHex, parseTree tree, parseOracle (rest.headD []) {} with
+            | some pos, some key, some np, some params, some items, some o =>
+              let rx := o.rx
+              if np != params.length then "bad-op"
+              else if kind == "R" && !regexesOk rx items.regexes then "cfg-error"
+              else match items.mnode .nil with
+                | none => "cfg-error"
+                | some n =>
+                  match descend items ⟨n, []⟩ pos with
+                  | none => "bad-op"
+                  | some p =>
+                    let ctx : MCtx := { root := root, helpers := helpers.reverse }
+                    let m := mapUrl ctx p key params
+                    if kind == "U" then mapStr m
+                    else match m with
+                      | .error _ => mapStr m
+                      | .ok full =>
+                        if root.isPrefixOf full then
+                          let url := full.drop root.length
+                          let evs := if spec then Spec.main rx (some meth) items.opts url else appMain rx q (some meth) items.opts url
+                          mapStr m ++ " " ++ evsStr evs
+                        else mapStr m
+            | _, _, _, _, _, _ => "bad-op"
+          | _ => "bad-op"
+        | _, _ => "bad-op"
+      | _, _ => "bad-op"
+  | _ => "bad-op"
+
+def step (_ : Unit) (line : String) : Unit × String :=
+  let ws := words line
+  let r : String :=
+    match ws with
+    | "J" :: rest =>
+      let caseWs := rest.takeWhile (· != "#")
+      let impl := " ".intercalate ((rest.dropWhile (· != "#")).drop 1)
+      boolStr (evalCase true caseWs == impl)
+    | _ => evalCase false ws
+  ((), r)
+
+def main : IO Unit := lineLoop () step
